@@ -5,6 +5,10 @@ mod out;
 mod rng;
 #[cfg(any(feature = "c02", feature = "c03", feature = "c04", feature = "c06", feature = "c07", feature = "c08"))]
 mod recv;
+#[cfg(any(feature = "c02", feature = "c03", feature = "c04", feature = "c06", feature = "c07", feature = "c08"))]
+mod recv2;
+#[cfg(any(feature = "c01", feature = "c05", feature = "c12", feature = "c13", feature = "c14", feature = "c16", feature = "c19"))]
+mod guest;
 
 #[cfg(feature = "c01")]
 mod c01;
